@@ -10,6 +10,7 @@ import dis
 from sa.core import rule, AnalysisError
 from sa.pyindex import get_module, dotted, src, kwarg, calls_in, try_fold
 from sa import flow
+from rules import c11 as _c11  # R1.6 shares the hierarchy-direction analysis
 
 EXPLANATION = (
     "Static guard-rail rules for inference soundness, evaluated on the AST of "
@@ -372,6 +373,13 @@ def r1_5(ctx):
             "lossy=False, use_abcs=False, remove_mutable=False", {"kwargs": kws})
 
 
+@rule("R1.6", "C01", floor=3)
+def r1_6(ctx):
+  """The pyi optimiser rewrites unions along the class hierarchy only in the
+  widening direction (the analysis lives in rules/c11.py, R11.6)."""
+  _c11.check_hierarchy_direction(ctx)
+
+
 VARIANTS = [
     {"name": "pop_jump_if_true-inverted", "rule": "R1.1", "file": VM, "expect": "fire",
      "old": "  def byte_POP_JUMP_IF_TRUE(self, state, op):\n    return vm_utils.jump_if(\n        state, op, self.ctx, jump_if_val=True,",
@@ -423,4 +431,22 @@ VARIANTS = [
      "new": "    self.generic_type = pytd.ClassType(\"builtins.object\")\n    self.max_length = max_length"},
     {"name": "lossy-optimize", "rule": "R1.5", "file": "pytype/io.py", "expect": "fire",
      "old": "        lossy=False,", "new": "        lossy=True,"},
+    # R1.6 (same analysis as R11.6)
+    {"name": "seeded-C01-m1", "rule": "R1.6", "patch": "seeded/C01-m1/patch.diff", "expect": "fire"},
+    {"name": "expand-subclasses-walks-superclass-table", "rule": "R1.6", "file": "pytype/pytd/optimize.py", "expect": "fire",
+     "old": "        queue.extend(self._subclasses[item])",
+     "new": "        queue.extend(self._superclasses.get(item, []))"},
+    {"name": "subclass-table-not-inverted", "rule": "R1.6", "file": "pytype/pytd/optimize.py", "expect": "fire",
+     "old": "    self._subclasses = utils.invert_dict(self._superclasses)",
+     "new": "    self._subclasses = dict(self._superclasses)"},
+    {"name": "twin-absorb-counter-renamed-update-form", "rule": "R1.6", "expect": "silent",
+     "edits": [("pytype/pytd/optimize.py", "    c = collections.Counter()\n    for t in set(union.type_list):",
+                "    seen_in = collections.Counter()\n    for member in set(union.type_list):"),
+               ("pytype/pytd/optimize.py", "      if isinstance(t, pytd.GENERIC_BASE_TYPE):\n        c += collections.Counter(self.hierarchy.ExpandSubClasses(str(t)))",
+                "      if isinstance(member, pytd.GENERIC_BASE_TYPE):\n        seen_in.update(self.hierarchy.ExpandSubClasses(str(member)))"),
+               ("pytype/pytd/optimize.py", "    new_type_list = [t for t in union.type_list if c[str(t)] <= 1]",
+                "    new_type_list = [t for t in union.type_list if seen_in[str(t)] < 2]")]},
+    {"name": "twin-hierarchy-mapping-copied", "rule": "R1.6", "file": "pytype/pytd/optimize.py", "expect": "silent",
+     "old": "    hierarchy = SuperClassHierarchy(superclasses)",
+     "new": "    by_name = dict(superclasses)\n    hierarchy = SuperClassHierarchy(by_name)"},
 ]
